@@ -16,7 +16,11 @@ import (
 
 func (e *Engine) intrinsic(fr *Frame, st *State, name string, fn *ssa.Function, args []Val, pos token.Pos) Val {
 	switch name {
-	case "GvcForall", "GvcExists":
+	case "GvcForall", "GvcExists", "GvcSome":
+		polar := name == "GvcSome"
+		if polar {
+			name = "GvcExists"
+		}
 		fv, ok := args[0].(*FuncV)
 		if !ok {
 			e.unsupported("%s needs a function literal", name)
@@ -59,7 +63,19 @@ func (e *Engine) intrinsic(fr *Frame, st *State, name string, fn *ssa.Function, 
 				for _, v := range vars {
 					parts = append(parts, fmt.Sprintf("(exists ((%s Int)) %s)", v.Var, v.Body))
 				}
-				res = "(or " + strings.Join(parts, " ") + ")"
+				// used only where the formula has to be proved (there the variants give the
+				// solver more instantiation triggers); an assumed existential is skolemised as is
+				// the variants are equivalent restatements: where the formula has to be proved they
+				// are offered as alternatives (more triggers for the witness), where it is assumed
+				// they are all asserted (one skolem witness per syntactic form of the index)
+				// Assumed existentials keep the disjunction as well: an existential that is skolemised
+				// eagerly feeds matching loops between pairs of forall-exists facts (every element of
+				// r comes from s / every kept element of s is in r), the disjunction keeps it lazy.
+				if polar || os.Getenv("GVC_POLEXISTS") != "" {
+					e.altExistsParts[res] = parts[1:]
+				} else {
+					res = "(or " + strings.Join(parts, " ") + ")"
+				}
 			}
 		}
 		if name == "GvcForall" && sort == sInt {
@@ -98,7 +114,17 @@ func (e *Engine) intrinsic(fr *Frame, st *State, name string, fn *ssa.Function, 
 			}
 			if len(only) > 0 {
 				// the enriched form is used when the formula is assumed, the plain one when it is a goal
-				e.altForm[res] = "(and " + res + " " + strings.Join(only, " ") + ")"
+				alt := "(and " + res + " " + strings.Join(only, " ") + ")"
+				// existentials nested in an assumed universal get their variants according to
+				// the polarity of their position inside it
+				if len(e.altExistsParts) > 0 && strings.Contains(alt, "(exists ") {
+					if tree := parseSx(alt); tree != nil {
+						e.noForallAlt++
+						alt = e.enrichSx(tree, 1).String()
+						e.noForallAlt--
+					}
+				}
+				e.altForm[res] = alt
 				e.altOnly[res] = only
 			}
 		}
@@ -330,9 +356,9 @@ func (e *Engine) appendModel(fr *Frame, st *State, s T, tv Val, sT, tT types.Typ
 	ncap := e.fresh(sInt, "cap")
 	e.assume(st, T{fmt.Sprintf("(>= %s %s)", ncap.S, total.S), sBool})
 	// append(s) with nothing appended returns s itself
-	rbase := tIte(inplace, T{app("sbase", s), sRef}, nb)
-	roff := tIte(inplace, T{app("soff", s), sInt}, tInt(0))
-	rcap := tIte(inplace, T{app("scap", s), sInt}, ncap)
+	rbase := e.nameAlways(tIte(inplace, T{app("sbase", s), sRef}, nb), "rb")
+	roff := e.nameAlways(tIte(inplace, T{app("soff", s), sInt}, tInt(0)), "ro")
+	rcap := e.nameAlways(tIte(inplace, T{app("scap", s), sInt}, ncap), "rc")
 	var res T
 	if known == 1 {
 		res = e.name(T{fmt.Sprintf("(mk_slice %s %s %s %s)", rbase.S, roff.S, total.S, rcap.S), sSlice}, "app")
@@ -415,12 +441,11 @@ func (e *Engine) appendOneStruct(st *State, s, t T, et types.Type, inplace, nb, 
 		e.recStore(st, hn, T{nb.S, "ELEMS"})
 		e.setHeap(st, hn, tIte(inplace, inpl, g))
 		nh := e.heap(st, hn, h.Sort)
-		// forward trigger: a known element of s yields the corresponding element of the result
-		e.assume(st, T{fmt.Sprintf("(forall ((k Int)) (! (=> (and (<= %s k) (< k (+ %s %s))) (= (select %s (eref (sbase %s) (+ (soff %s) (- k %s)))) (select %s (eref %s k)))) :pattern ((select %s (eref %s k)))))",
-			so.S, so.S, n1.S, nh.S, res.S, res.S, so.S, h.S, sb.S, h.S, sb.S), sBool})
-		// backward trigger
-		e.assume(st, T{fmt.Sprintf("(forall ((k Int)) (! (=> (and (<= (soff %s) k) (< k (+ (soff %s) %s))) (= (select %s (eref (sbase %s) k)) (select %s (eref %s (+ %s (- k (soff %s))))))) :pattern ((select %s (eref (sbase %s) k)))))",
-			res.S, res.S, n1.S, nh.S, res.S, h.S, sb.S, so.S, res.S, nh.S, res.S), sBool})
+		// elements of s and of the result correspond index by index; one axiom over the relative
+		// index with a trigger on either side (instantiating it from one side only creates the
+		// other side's term for the same index, so the two triggers cannot feed each other)
+		e.assume(st, T{fmt.Sprintf("(forall ((i Int)) (! (=> (and (<= 0 i) (< i %s)) (= (select %s (eref (sbase %s) (+ (soff %s) i))) (select %s (eref %s (+ %s i))))) :pattern ((eref %s (+ %s i))) :pattern ((eref (sbase %s) (+ (soff %s) i)))))",
+			n1.S, nh.S, res.S, res.S, h.S, sb.S, so.S, sb.S, so.S, res.S, res.S), sBool})
 	}
 }
 
